@@ -189,7 +189,7 @@ def encodeFileHeader (F : Faults) (e : Enc) (h : Hdr) (ds : Nat) : Enc × Bool :
 /-- `encodeMessage` up to the writes: new encoder state, the definition record when it is new, the data record
 (the same computation as `Wire.encodeMsg`, which concatenates the two: `encodeMsg_parts`) -/
 def encodeMsgParts (o : Opts) (s : EncState) (m : WMsg) : EncState × Option Bytes × Bytes :=
-  let (tsRef', off) := if o.compress then compressTs o.arch s.tsRef m else (s.tsRef, none)
+  let (tsRef', tsLast', off) := if o.compress then compressTs o.arch s.tsRef s.tsLast m else (s.tsRef, s.tsLast, none)
   let m' : WMsg := match off with
     | some _ => { m with fields := removeFirst tsFieldNum m.fields }
     | none => m
@@ -198,7 +198,7 @@ def encodeMsgParts (o : Opts) (s : EncState) (m : WMsg) : EncState × Option Byt
   let hdr := match off with
     | some t => (0x80 ||| t) ||| ((i <<< 5) % 256)
     | none => i
-  ({ lru := lru', tsRef := tsRef' }, (if isNew then some (defRecord o.arch i m') else none), hdr :: payload m')
+  ({ lru := lru', tsRef := tsRef', tsLast := tsLast' }, (if isNew then some (defRecord o.arch i m') else none), hdr :: payload m')
 
 /-- one `n, err = e.w.Write(b); e.n, e.dataSize = e.n+n, e.dataSize+uint32(n); if err … ; crc16.Write(b)` -/
 def writeRecord (F : Faults) (e : Enc) (b : Bytes) : Enc × Bool :=
@@ -273,7 +273,7 @@ leaves it in the caller's slice -/
 def dryMessage (o : Opts) (s : EncState) (m : WMsg) : EncState × Nat × WMsg :=
   let parts := encodeMsgParts o s m
   let len := (match parts.2.1 with | some db => db.length | none => 0) + parts.2.2.length
-  let compressed := o.compress && (compressTs o.arch s.tsRef m).2.isSome
+  let compressed := o.compress && (compressTs o.arch s.tsRef s.tsLast m).2.2.isSome
   let left : WMsg :=
     if compressed then
       match m.fields[tsIndex m.fields]? with
